@@ -67,6 +67,14 @@ CLAIMS = {
          "_where_should_it_be at unit level.",
          "Trusted: Coq kernel + vm_compute; model; harness (choice patched as module attribute; list(universe) order observed).",
          "DESIGN.md section 4, C11"),
+ "C18": ("Coq model of the index-based scanner, from_string, str(Ranking), file reader/writer; totality theorems + exhaustive text correspondence",
+         "PARTIAL proof. Proved for every ASCII string: the scanner loop never runs out of fuel (en_str strictly increases), hence "
+         "parse / from_string / the file reader return a value or ValueError and nothing else. The model reproduces Python's find/rfind/"
+         "slice clamping, strip, split, int(); it agrees with the library on EVERY string of length <= 4 (5) over the format alphabet and on "
+         "edited near-valid renderings. The round-trip statements (string and file) are NOT theorems in this version: they are decided by "
+         "evaluating printer and parser of the model next to the library's on each generated ranking/dataset inside Coq.",
+         "Trusted: Coq kernel + vm_compute; hand-written model; harness; ASCII only; names restricted as in DESIGN.md C18.",
+         "DESIGN.md section 4, C18"),
 }
 NOT_YET = "check not built yet in this phase (planned: DESIGN.md section 4); no claim is made"
 
